@@ -246,8 +246,12 @@ CLAIMED = {
         "BYSETPOS) and `none missing' (every instance not before the seed, not after UNTIL/2099 is written, or the cache is full and the "
         "instance comes later) for EVERY parser-producible rule (any INTERVAL, BYMONTH, BYMONTHDAY incl. negative, BYDAY, BYYEARDAY, "
         "BYHOUR/BYMINUTE/BYSECOND, BYSETPOS, COUNT, UNTIL) and every seed 1901-2099 - including the skip-ahead over filtered "
-        "days/hours/minutes, the month/year carry, the Monday alignment of weeks, the daily-to-weekly hand-over. YEARLY and MONTHLY are "
-        "covered by the reference-expander oracle and the correspondence run (their Lean equivalence is in progress, see DESIGN §9). "
+        "days/hours/minutes, the month/year carry, the Monday alignment of weeks, the daily-to-weekly hand-over. FREQ=MONTHLY "
+        "and YEARLY: the same two statements, BYSETPOS included, and across a refill (the seed is an occurrence of the original "
+        "DTSTART/rule; instances and BYSETPOS anchored at the seed equal those anchored at DTSTART), for the RFC rule language minus "
+        "two classes in which the code is wrong (recorded findings D125, D129: the theorem names carry _partial, the classes are "
+        "spelled out by MlySup / YlySup); monthly completeness assumes an occurrence within the first 336 periods (the code gives up "
+        "after 337 months, the calendar cycle plus one), which holds whenever the seed is an occurrence. "
         "On the real code: generated rules of all seven frequencies through the real parser and stream, 150-200 occurrences each across "
         "refills, compared one by one with an independent RFC 5545 reference expander; parsed rule structs compared with the expected "
         "encoding; the same events through the whole calendar parser.",
